@@ -231,7 +231,7 @@ package redis
 //@   loop 0 invariant readerRI(b) && (b.err == nil ==> windowok(b)) && b.rd == old(b.rd) && 0 <= size && (!isnil(last) ==> size >= len(last) && len(last) >= 1)
 //@   loop 0 invariant (cap(full) == 0 || fresh(full)) && (fresh(b.slice.buf) || within(b.slice.buf, old(b.slice.buf))) && b.buf == old(b.buf)
 //@   loop 0 assume size <= 2305843009213693952 && len(b.buf) <= 2305843009213693952
-//@   loop 1 invariant disjoint(buf, b.buf) && disjoint(b.buf, b.slice.buf) && b.buf == old(b.buf)
+//@   loop 1 invariant disjoint(buf, b.buf) && disjoint(b.buf, b.slice.buf) && b.buf == old(b.buf) && (b.err == nil ==> windowok(b))
 //@   loop 1 invariant 0 <= n && n <= len(buf) && len(buf) == size && !isnil(last) && size >= len(last) && len(last) >= 1 && (size == 0 || fresh(buf) || within(buf, old(b.slice.buf)))
 
 //@ func (*Reader).ReadFull
